@@ -273,6 +273,7 @@ type Outcome struct {
 	CancelSeq int      `json:"cancel_seq"`        // seq of the callback that cancelled (-1 none)
 	ReturnedDuringCallback bool `json:"returned_during_callback,omitempty"` // Run returned while a user callback of this run was still executing
 	err       error
+	matcher   func(error) string
 }
 
 // ---------------------------------------------------------------------------
@@ -1335,6 +1336,7 @@ func (x *Exec) RunOnce() (out Outcome) {
 	x.runaway.Store(false)
 	out.ErrNil = err == nil
 	out.err = err
+	out.matcher = x.MatchErr
 	out.CancelSeq = x.cancelSeq
 	if err != nil {
 		out.ErrText = err.Error()
@@ -1365,6 +1367,14 @@ func (x *Exec) RunOnce() (out Outcome) {
 		out.Discard = true // the machine was too slow: the deadline was reached after all
 	}
 	return out
+}
+
+// MatchAgain re-evaluates, now, which scripted error the error value this run returned matches.
+func (o *Outcome) MatchAgain() string {
+	if o.err == nil || o.matcher == nil {
+		return ""
+	}
+	return o.matcher(o.err)
 }
 
 // Store returns the store of the last run.
